@@ -299,8 +299,8 @@ def e_stat20(c):
 
 
 PARTS = [
-    Part("det", e_det, s_det(), quick=250, thorough=1500, shards=16, quick_shards=4, rule="deterministic and seeded-twin clauses"),
-    Part("errors", e_err, s_err, quick=60, thorough=300, shards=1, rule="documented error paths"),
+    Part("det", e_det, s_det(), quick=250, thorough=3750, shards=16, quick_shards=4, rule="deterministic and seeded-twin clauses"),
+    Part("errors", e_err, s_err, quick=60, thorough=750, shards=1, rule="documented error paths"),
     Part("stat", e_stat, s_stat(), quick=24, thorough=0, shards=1, quick_shards=4, shrink=False, rule="2^18-sample CW realisations (quick tier)"),
-    Part("stat20", e_stat20, s_stat(), quick=0, thorough=60, shards=16, shrink=False, rule="2^20-sample CW realisations (thorough tier)"),
+    Part("stat20", e_stat20, s_stat(), quick=0, thorough=150, shards=16, shrink=False, rule="2^20-sample CW realisations (thorough tier)"),
 ]
